@@ -90,7 +90,7 @@ def handle (m : String) (a : Json) : R Json := do
     return jBool (consistentAxes ms)
   | "axes" =>
     let ms ← listF getMS a "specs"
-    return exJ (jList (jPair jStr (jList jStr))) (mapspecAxes ms)
+    return jObj [("ok", jList (jPair jStr (jList (jOpt jStr))) (mapspecAxes ms))]
   | _ => .error s!"unknown entry {m}"
 
 def main : IO Unit := loop handle
